@@ -3,7 +3,7 @@ the real library and project the observation into the specification's vocabulary
 Deliberately dumb: attribute reads and constructor calls only."""
 from __future__ import annotations
 
-from .core import outcome, octs, after_pack, decoded, live, scramble, rxbuf, owned, enum_arg, assign_grown, side_pack
+from .core import outcome, octs, after_pack, decoded, live, scramble, rxbuf, owned, enum_arg, assign_grown, side_pack, crc32_twin
 from .probe import fresh
 from .probe import decode_other, poison, twin
 
@@ -116,6 +116,17 @@ def mk_tc(p, via="ctor"):
     if via == "setter":
         # a history instead of a constructor call: other values first, one pack() (which may cache a CRC / a length),
         # then the public setters bring the object to the wanted values
+        twin = crc32_twin(data) if (p["apid"] + len(data)) % 2 else None
+        if twin is not None:
+            # earlier content of the SAME length with the same CRC-32, everything else already final; the buffer pack()
+            # returned is then edited by the caller to what the next packet will be (its transmit buffer), and the same
+            # change is made through the setter: the checksum must be that of the new content
+            tc = PusTc(service=p["service"], subservice=p["subservice"], apid=p["apid"], app_data=twin,
+                       seq_count=p["seq"], source_id=p["source"], ack_flags=p["ack"])
+            sent = tc.pack()
+            sent[11:11 + len(data)] = data
+            tc.app_data = data
+            return tc
         tc = PusTc(service=p["service"], subservice=p["subservice"], apid=(p["apid"] + 1) % 2048, app_data=data + b"\x55",
                    seq_count=(p["seq"] + 1) % 16384, source_id=(p["source"] + 1) % 65536, ack_flags=p["ack"])
         tc.pack()
@@ -161,6 +172,17 @@ def mk_tm(p, via="tm"):
         assign_grown(tm, "tm_data", p["data"])
         return tm
     if via == "setter":
+        twin = crc32_twin(p["data"]) if (p["apid"] + len(p["data"])) % 2 else None
+        if twin is not None:
+            tm = PusTm(service=p["service"], subservice=p["subservice"], timestamp=bytes(p["stamp"]),
+                       source_data=twin, apid=p["apid"], seq_count=p["seq"],
+                       message_counter=p["msgcnt"], space_time_ref=p["timeref"], destination_id=p["dest"],
+                       packet_version=p["ver"])
+            sent = tm.pack()
+            at = 13 + len(p["stamp"])
+            sent[at:at + len(p["data"])] = bytes(p["data"])
+            tm.tm_data = bytes(p["data"])
+            return tm
         tm = PusTm(service=p["service"], subservice=p["subservice"], timestamp=bytes(p["stamp"]),
                    source_data=bytes(p["data"]) + b"\x55\x55", apid=(p["apid"] + 1) % 2048, seq_count=p["seq"],
                    message_counter=p["msgcnt"], space_time_ref=p["timeref"], destination_id=p["dest"],
